@@ -123,5 +123,14 @@ Configs3 == {Cfg(n, e, lp, rp, NoLk, FALSE, mode, "", ",") :
                mode \in {"", "-s"}}
 Lefts3(c, n) == {s \in Lists(LT3, n) : c.mode = "-s" => SortedBy(Ref1(FALSE), s, <<"#1">>)}
 Rights3(c, n) == {s \in Lists(RT3, n) : c.mode = "-s" => SortedBy(Ref1(FALSE), s, <<"#1">>)}
+\* ---- the escape family: join values holding the characters an implementation might use to build a composite key -- the
+\* comma, the backslash, a trailing backslash, a doubled backslash.  Values pair iff they are equal as text.
+LT4 == { <<F("#1", "a\\b"), F("x", "1")>>, <<F("#1", "a\\"), F("x", "2")>>, <<F("#1", "a\\\\"), F("x", "3")>>, <<F("#1", "a,b"), F("x", "4")>>,
+         <<F("#1", "a"), F("x", "5")>> }
+RT4 == { <<F("#1", "a\\b"), F("y", "1")>>, <<F("#1", "a\\"), F("y", "2")>>, <<F("#1", "a\\\\"), F("y", "3")>>, <<F("#1", "a,b"), F("y", "4")>>,
+         <<F("#1", "a"), F("y", "5")>> }
+Configs4 == {Cfg(PlainNames, e, "", "", NoLk, FALSE, mode, fmt, ";") : e \in (IF Wide THEN {All, AllNp} ELSE {All}), mode \in {"", "-s"}, fmt \in {"", "--ijson"}}
+Lefts4(c, n) == {s \in Lists(LT4, n) : c.mode = "-s" => SortedBy(Ref1(FALSE), s, <<"#1">>)}
+Rights4(c, n) == {s \in Lists(RT4, n) : c.mode = "-s" => SortedBy(Ref1(FALSE), s, <<"#1">>)}
 CaseX(c, l, r) == [c |-> c, left |-> InstListX(l, LF(c), RF(c), c.j), right |-> InstListX(r, RF(c), LF(c), c.j)]
 =============================================================================
